@@ -96,6 +96,31 @@ pub fn generate(g: &mut Gen) {
             g.push(format!("obj.loss {} {} {} {}", o, clamp_tok(c), qt(&t3), qt(&t3)), Tol::Tight, &format!("{}/identical-pair/3d", o), true);
         }
     }
+    // PART of the prediction fitted exactly (a whole channel, a whole row, a single element equal to its target) in tensors
+    // whose height and width differ: the gradient still has the prediction's shape, the fitted part gets the documented
+    // value for a zero difference
+    for o in OBJS.iter() {
+        let probabilistic = matches!(*o, "ce" | "bce" | "kl");
+        for (ch, h, w) in [(2usize, 2usize, 3usize), (2, 3, 2), (3, 1, 4), (1, 2, 5)] {
+            for part in 0..4usize {
+                let n = ch * h * w;
+                let (mut p, t) = pair(g, o, n, false);
+                if probabilistic && part == 3 { continue; }
+                match part {
+                    0 => for i in 0..h * w { p[i] = t[i]; },                          // the first channel
+                    1 => for i in (ch - 1) * h * w..n { p[i] = t[i]; },               // the last channel
+                    2 => for i in 0..w { p[(ch - 1) * h * w + (h - 1) * w + i] = t[(ch - 1) * h * w + (h - 1) * w + i]; }, // the last row
+                    _ => { p[n / 2] = t[n / 2]; }
+                }
+                let to3 = |v: &Vec<f32>| Tensor::triple(v.chunks(h * w).map(|m| m.chunks(w).map(|r| r.to_vec()).collect()).collect());
+                for c in [None, Some((-0.05f32, 0.1f32))] {
+                    if c.is_some() && part % 2 == 1 { continue; }
+                    g.push(format!("obj.loss {} {} {} {}", o, clamp_tok(c), qt(&to3(&p)), qt(&to3(&t))), Tol::Tight, &format!("{}/partly-fitted/{}x{}x{}", o, ch, h, w), true);
+                }
+                g.push(format!("obj.loss {} none {} {}", o, qt(&Tensor::single(p.clone())), qt(&Tensor::single(t.clone()))), Tol::Tight, &format!("{}/partly-fitted/1d", o), true);
+            }
+        }
+    }
     // large operands a small distance apart (the loss is small against the operands: computed from the differences,
     // it is accurate relative to ITSELF)
     for o in ["ae", "mae", "mse", "rmse"] {
